@@ -60,12 +60,19 @@ def main():
     if only:
         diffs = [d for d in diffs if any(os.path.basename(d).startswith(o) for o in only)]
     # the unchanged tree must be silent first, otherwise every refactoring would be blamed
+    base_wt = None
+    if os.environ.get("EVAL_BASE"):
+        base_wt = tempfile.mkdtemp(prefix="ben_base_", dir="/tmp")
+        os.rmdir(base_wt)
+        sh(["git", "-C", "/repo", "worktree", "add", "-q", "--detach", base_wt, os.environ["EVAL_BASE"]])
     for pid in PIDS:
-        rc, o = sh([os.path.join(VERIF, "check"), pid, "--tier", "quick", "--no-evidence", "--outdir", tempfile.mkdtemp(prefix="benout_", dir="/tmp")], cwd=VERIF)
+        rc, o = sh([os.path.join(VERIF, "check"), pid, "--tier", "quick", "--no-evidence", "--outdir", tempfile.mkdtemp(prefix="benout_", dir="/tmp")] + (["--repo", base_wt] if base_wt else []), cwd=VERIF)
         if rc:
             print(f"check {pid} is not silent on the unchanged tree (rc={rc}); fix that first")
             print("\n".join(l for l in o.splitlines() if "VIOLATION" in l or "ANALYSIS-ERROR" in l or l.startswith("  C"))[:1500])
             return 2
+    if base_wt:
+        sh(["git", "-C", "/repo", "worktree", "remove", "--force", base_wt])
     with ThreadPoolExecutor(6) as ex:
         rows = list(ex.map(one, diffs))
     sh(["git", "-C", "/repo", "worktree", "prune"])
